@@ -138,6 +138,19 @@ CHECKS = {
         note="Trusted: TLC, the structural serialiser (pser.type_occurrences). Random programs: a violation that needs a rare shape may need the "
              "thorough tier.",
     ),
+    "C18": dict(
+        category="exploration",
+        technique="TLA+ path model of the generator's call tree (HGenerator: leaf rule, depth increments, bottom cut) model-checked by TLC "
+                  "for depth-boundedness and termination; the running pipeline instrumented from the harness and every call edge / dispatch "
+                  "decision / stage outcome validated by TLC against the model (HGeneratorTrace)",
+        text="Model checking of the skeleton (bounded and terminating once the zero-cost links of F17 are cut; TLC must find the lasso otherwise) "
+             "plus exploration: 1 024 programs (quick) / 10 240 (thorough) over 4 languages x max_depth 2..8 x switch settings, each through all "
+             "pipeline stages; no exception in any stage, every generator edge in the model's edge table with its depth increment, leaf rule at "
+             "every dispatch, depth restored on exit, nesting and call budget bounded.",
+        design_ref="DESIGN.md §5 C18",
+        note="Exploration cannot prove absence of exceptions. The edge table was read off the code and calibrated on a census; DeclSlack and the "
+             "nesting slack are calibrated constants. Wall-clock timeouts of the transformations are outside the model.",
+    ),
 }
 
 NOT_YET = "check not built yet (work in progress in this session; see DESIGN.md §10 for the order of work)"
